@@ -202,7 +202,8 @@ def run(ctx):
         "canonical decimal and ByteVec in hex; contracts are not executed",
     ]
     ctx.assumptions += [
-        "base58: dec (enc b) = b is a hypothesis of c11_contract_id_roundtrip; the btcutil implementation and its Lean model are compared on every run",
+        "base58: c11_contract_id_roundtrip takes any codec with dec (enc b) = b; for the Lean model of btcutil's base58 that is proved "
+        "(c11_base58_roundtrip); that the library behaves like its model is observed by the tie (b58 / cid cases), not proved",
         "toMessagePublication is called with a non-nil header (its callers dereference the header before)",
     ]
     os.remove(src)
